@@ -100,6 +100,9 @@ pub fn check(c: &OntCase, stats: &mut Stats) -> CheckResult {
     if n.tag_order != 0 {
         stats.label("id-tag-not-first-in-stanza");
     }
+    if n.header_order % 3 != 0 && !n.no_header {
+        stats.label("data-version-not-on-the-second-header-line");
+    }
     if n.split_stanzas && expected.terms.iter().enumerate().any(|(pos, t)| pos % 2 == 0 && expected.edges.iter().filter(|(c, _)| *c == t.id).count() >= 2) {
         stats.label("is_a-lines-of-a-term-in-two-stanzas");
     }
